@@ -101,6 +101,7 @@ func (*ExprCondition).Evaluate
   modifies *
   count ran := Run
   observe fastOK := eval#1
+  before Run the-general-evaluator-is-handed-the-compiled-program-and-this-row-and-nothing-kept-from-earlier-rows: $arg0 == ec.program && $arg1 == env
   atreturn a-row-the-shortcut-declines-is-decided-by-the-general-evaluator: (ec.compound == nil && ec.fast == nil) || !$fastOK ==> $ran == 1
   atreturn a-row-the-shortcut-decides-never-reaches-the-general-evaluator: (ec.compound != nil || ec.fast != nil) && $fastOK ==> $ran == 0
 
